@@ -272,6 +272,24 @@ func runHedged(d *big.Int, digest []byte, src string) string {
 	if !ref.ECDSAVerify(ref.BaseMul(d), digest, ref.OS2IP(r0), ref.OS2IP(s0)) {
 		return "signature does not verify under the reference"
 	}
+	// history on ONE key object: the caller reads the key's bytes / scalar / public key and wipes what it was
+	// handed; the nonce still depends on the key exactly as before
+	{
+		sk := lib.MkPriv(d)
+		kb := sk.Bytes()
+		for i := range kb {
+			kb[i] = 0
+		}
+		sk.Scalar().Zero()
+		pb := sk.PublicKey().Bytes()
+		for i := range pb {
+			pb[i] = 0
+		}
+		rr, ss, _, e := sk.SignRaw(base.New(), digest)
+		if e != nil || !bytes.Equal(rr.Bytes(), r0) || !bytes.Equal(ss.Bytes(), s0) {
+			return fmt.Sprintf("after the caller wiped the copies handed out by the key's accessors, the same (key, digest, entropy) signs differently (err=%v): the nonce derivation reads caller-visible memory", e)
+		}
+	}
 	for _, m := range mc.DeliveryModes() {
 		sc := base
 		sc.Mode = m
